@@ -102,13 +102,33 @@ def rule_T1(ctx, rule="T1-tags"):
     if lb:
         d = describe(lb, lb.origin_local(0))
         ctx.ob(rule, lb.path, "reads-field-2", d == "(discr as u8)" or "discr" in d or d.startswith("(") and ".2" in d, how="last_byte = self.2 as u8", detail="last_byte returns %s" % d)
-    # len / as_bytes use the same constants
+    # len: the inline arm decodes the tag byte correctly for EVERY byte an inline string can end in
+    # (0xC0|len for len < MAX_INLINE_SIZE, and any UTF-8 final byte < 0xC0 of a full buffer):
+    # the decoding expression is evaluated for all of them
     ln = F.bodies.get("repr::Repr::len")
-    if ln and F.ptr_bits == 64:
-        txt = " ".join(describe(ln, ("call", bb)) for bb, _ in ln.calls())
-        txt = txt.replace("core::cmp::Ord::min(", "min(")
-        ok = "wrapping_sub((repr::Repr::last_byte(p1) as usize), (const:%s::MASK_1100_0000 as usize))" % LB in txt and "min(" in txt and "const:repr::MAX_INLINE_SIZE" in txt
-        ctx.ob(rule, ln.path, "inline-len-decoding", ok, how="inline len = min(last_byte - 0xC0 (wrapping), MAX_INLINE_SIZE)", detail="Repr::len decodes the inline length differently: %s" % txt[:200])
+    branchless = False
+    if ln:
+        cands = []
+        for leaf in _value_leaves(ln, ln.origin_local(0)):
+            d = describe(ln, leaf)
+            if "repr::Repr::last_byte(p1)" in d and "HeapBuffer::len" not in d and "StaticBuffer::len" not in d:
+                cands.append((leaf, d))
+        ctx.need(rule, ln.path, "inline-len-expression", len(cands) == 1, "Repr::len has %d candidate expressions for the inline length (%s)" % (len(cands), [d[:80] for _, d in cands]), how="one inline length expression")
+        for leaf, d in cands:
+            bad = []
+            for byte in range(0, 0xC0 + M):      # data bytes of a full buffer, then the tags 0xC0|len, len < M
+                v = _ceval(ln, leaf, byte, F)
+                want = M if byte < 0xC0 else byte - 0xC0
+                if v != want:
+                    bad.append((byte, v, want))
+            ctx.ob(rule, ln.path, "inline-len-decoding", not bad, how="decodes all %d possible last bytes of an inline string (tags 0xC0|len and data bytes < 0xC0 of a full buffer): %s" % (0xC0 + M, d[:120]),
+                   detail="Repr::len decodes the inline length wrongly for last byte %s (got %s, expected %s; %d bytes differ): %s" % ((("%#x" % bad[0][0], bad[0][1], bad[0][2], len(bad)) if bad else ("-", "-", "-", 0)) + (d[:160],)))
+            # a branchless select: for the two markers the same expression must yield the stored length word
+            vh, vs_ = _ceval(ln, leaf, hm, F), _ceval(ln, leaf, sm, F)
+            if isinstance(vh, _U) and isinstance(vs_, _U) and vh == vs_ and "last_byte" not in vh:
+                branchless = True
+                ctx.ob(rule, ln.path, "inline-vs-heap-test", True, how="branchless select: the markers %#x / %#x yield the stored length word %s" % (hm, sm, vh[:60]))
+    if ln and F.ptr_bits == 64 and not branchless:
         facts = [(d, lo, hi) for d, lo, hi, _, _ in cmp_facts(ln) if d == "repr::Repr::last_byte(p1)"]
         ctx.ob(rule, ln.path, "inline-vs-heap-test", any((lo is None and hi == hm - 1) or (lo == hm and hi is None) for _, lo, hi in facts), how="inline iff last_byte < HeapMarker (as an interval: %s)" % facts[:2], detail="Repr::len selects the inline length on %s" % facts)
     ab = F.bodies.get("repr::Repr::as_bytes")
@@ -121,6 +141,171 @@ def rule_T1(ctx, rule="T1-tags"):
                 ctx.ob(rule, ab.path, "slice-len=len()", l == "repr::Repr::len(p1)", how="slice length = self.len()", detail="as_bytes slice length is %s" % l)
 
 
+def _value_leaves(body, e, depth=0, seen=None):
+    """the alternative value expressions of a place: through phis and multiply-assigned locals"""
+    e = strip_refs(e)
+    seen = seen if seen is not None else set()
+    if depth > 12:
+        return [e]
+    if e[0] == "phi":
+        out = []
+        for x in e[1]:
+            out += _value_leaves(body, x, depth + 1, seen)
+        return out
+    if e[0] in ("mem", "local") and e[1] not in seen:
+        seen.add(e[1])
+        out = []
+        for d in body.defs.get(e[1], []):
+            x = ("call", d[0]) if d[1] == "term" else body.origin_rvalue(d[2])
+            if strip_refs(x) != e:
+                out += _value_leaves(body, x, depth + 1, seen)
+        return out or [e]
+    return [e]
+
+
+class _U(str):
+    """an unknown machine word (named by the expression that produces it)"""
+
+
+def _ceval(body, e, byte, F, depth=0, env=None):
+    """value of an expression over `last_byte(self)` = byte, in the machine arithmetic of the target:
+    an int, a _U token for a value that does not depend on the tag byte alone (the length word of a
+    heap / static handle), or None when an operation is not modelled.  Unknown words are absorbed by
+    `& 0` and `| all-ones` (branchless selects)."""
+    e = strip_refs(e)
+    if depth > 40:
+        return None
+    W = (1 << F.ptr_bits) - 1
+    k = e[0]
+    E = lambda x: _ceval(body, x, byte, F, depth + 1, env)
+    if k == "param" and env is not None and e[1] in env:
+        return env[e[1]]
+    if k == "const":
+        return e[2] if isinstance(e[2], int) else None
+    if k == "cast" and e[1] in ("IntToInt",):
+        v = E(e[2])
+        if v is None or isinstance(v, _U):
+            return v
+        bits = {"u8": 8, "u16": 16, "u32": 32, "u64": 64, "usize": F.ptr_bits}.get(e[3])
+        return v & ((1 << bits) - 1) if bits else None
+    if k in ("mem", "local"):
+        ds = body.defs.get(e[1], [])
+        if len(ds) == 1 and e[1] not in body.partial:
+            return E(("call", ds[0][0]) if ds[0][1] == "term" else body.origin_rvalue(ds[0][2]))
+        return _U(describe(body, e))
+    if k == "field" and e[1][0] == "bin" and e[1][1].endswith("WithOverflow") and e[2] == 0:
+        return E(("bin", e[1][1].replace("WithOverflow", ""), e[1][2], e[1][3]))
+    if k == "un":
+        v = E(e[2])
+        if v is None or isinstance(v, _U):
+            return v if v is None else _U("!" + v)
+        if e[1] == "Not":
+            ty = describe(body, e[2])
+            return (v ^ 1) if v in (0, 1) and _is_bool(body, e[2]) else (~v) & W
+        if e[1] == "Neg":
+            return (-v) & W
+        return None
+    if k == "bin":
+        a, b = E(e[2]), E(e[3])
+        if a is None or b is None:
+            return None
+        op = e[1]
+        ua, ub = isinstance(a, _U), isinstance(b, _U)
+        if op == "BitAnd":
+            if (not ua and a == 0) or (not ub and b == 0):
+                return 0
+            if not ua and a == W and ub:
+                return b
+            if not ub and b == W and ua:
+                return a
+        if op == "BitOr":
+            if not ua and a == 0 and ub:
+                return b
+            if not ub and b == 0 and ua:
+                return a
+            if (not ua and a == W) or (not ub and b == W):
+                return W
+        if op in ("Mul", "MulUnchecked"):
+            if (not ua and a == 0) or (not ub and b == 0):
+                return 0
+            if not ua and a == 1:
+                return b
+            if not ub and b == 1:
+                return a
+        if ua or ub:
+            return _U("(%s %s %s)" % (a, op, b))
+        if op in ("BitAnd", "BitOr", "BitXor"):
+            return {"BitAnd": a & b, "BitOr": a | b, "BitXor": a ^ b}[op]
+        if op in ("Sub", "SubUnchecked"):
+            return a - b if a >= b else None      # would panic / be UB
+        if op in ("Add", "AddUnchecked"):
+            return a + b
+        if op in ("Mul", "MulUnchecked"):
+            return a * b
+        if op == "Shr":
+            return a >> b
+        if op == "Shl":
+            return (a << b) & W
+        if op in ("Lt", "Le", "Gt", "Ge", "Eq", "Ne"):
+            import operator as o
+            return int({"Lt": o.lt, "Le": o.le, "Gt": o.gt, "Ge": o.ge, "Eq": o.eq, "Ne": o.ne}[op](a, b))
+        return None
+    if k == "call":
+        t = body.term(e[1])
+        n = callee_name(t)
+        args = [body.origin_operand(a) for a in t["args"]]
+        if n == "repr::Repr::last_byte" and len(args) == 1:
+            return byte
+        leaf = n.rsplit("::", 1)[-1]
+        vs = [E(a) for a in args]
+        key = t.get("local_key")
+        if key and key in body.facts.bodies and key not in anchors(body.facts) and body.facts.bodies[key].j["kind"] != "closure" and not any(v is None for v in vs):
+            # a private helper (`inline_len_from_last_byte(b)`): its single result, on these arguments
+            hb = body.facts.bodies[key]
+            ds = hb.defs.get(0, [])
+            if len(ds) == 1:
+                r = ("call", ds[0][0]) if ds[0][1] == "term" else hb.origin_rvalue(ds[0][2])
+                return _ceval(hb, r, byte, F, depth + 1, {i + 1: v for i, v in enumerate(vs)})
+        if any(v is None for v in vs):
+            return None
+        if any(isinstance(v, _U) for v in vs) or not vs:
+            return _U(describe(body, e))
+        if n.startswith("core::num::<impl u"):
+            bits = {"u8": 8, "usize": F.ptr_bits, "u32": 32, "u64": 64}.get(n[len("core::num::<impl "):].split(">")[0])
+            if not bits:
+                return None
+            m = (1 << bits) - 1
+            if leaf == "wrapping_sub" and len(vs) == 2:
+                return (vs[0] - vs[1]) & m
+            if leaf == "wrapping_add" and len(vs) == 2:
+                return (vs[0] + vs[1]) & m
+            if leaf == "saturating_sub" and len(vs) == 2:
+                return max(0, vs[0] - vs[1])
+            if leaf == "saturating_add" and len(vs) == 2:
+                return min(m, vs[0] + vs[1])
+            if leaf == "wrapping_neg" and len(vs) == 1:
+                return (-vs[0]) & m
+        if leaf == "min" and len(vs) == 2 and ("cmp" in n or "Ord" in n):
+            return min(vs)
+        if leaf == "max" and len(vs) == 2 and ("cmp" in n or "Ord" in n):
+            return max(vs)
+        if leaf in ("from", "into") and len(vs) == 1:
+            return vs[0]
+        return None
+    if k in ("field", "deref", "ref", "index", "agg", "phi"):
+        return _U(describe(body, e))
+    return None
+
+
+def _is_bool(body, e):
+    e = strip_refs(e)
+    if e[0] == "bin" and e[1] in ("Lt", "Le", "Gt", "Ge", "Eq", "Ne"):
+        return True
+    if e[0] == "const" and e[1] == "bool":
+        return True
+    return False
+
+
 def rule_T3(ctx, rule="T3-publish"):
     """every path from a write into string storage to a normal return passes set_len"""
     F = ctx.F
@@ -128,7 +313,12 @@ def rule_T3(ctx, rule="T3-publish"):
     for path, b in F.bodies.items():
         if path in VIEWS:
             continue
-        views = [bb for bb, t in b.calls() if callee_name(t) in VIEWS]
+        if path not in anchors(F) and b.j["kind"] != "closure":
+            # a private helper that did not exist on the reference tree (move_bytes(..)): its writes
+            # are counted at its call sites, where the length is published
+            continue
+        views = [bb for bb, t in b.calls() if callee_name(t) in VIEWS or (t.get("local_key") and t["local_key"] not in anchors(F) and t["local_key"] in F.bodies and F.bodies[t["local_key"]].j["kind"] != "closure"
+                                                                          and any(callee_name(t2) in VIEWS for _, _, t2 in inlined_calls(F.bodies[t["local_key"]])) and not _publishes_itself(F.bodies[t["local_key"]]))]
         if not views:
             continue
         n += 1
@@ -140,7 +330,8 @@ def rule_T3(ctx, rule="T3-publish"):
             k = t.get("local_key")
             if k and k in F.bodies and k not in anchors(F) and any(bb in b.reachable(v, unwind=False) for v in views):
                 if any((callee_name(t2) in WRITE_CALLS or callee_name(t2) in WRITE_PRIMS) for _, _, t2 in inlined_calls(F.bodies[k])) or _has_raw_store(F.bodies[k]):
-                    writes.append(bb)
+                    if not _publishes_itself(F.bodies[k]):
+                        writes.append(bb)
         for bb, blk in enumerate(b.blocks):
             for s in blk["stmts"]:
                 if s["k"] == "assign" and s["lhs"]["p"] and s["lhs"]["p"][0] == "deref" and b.local_ty(s["lhs"]["l"]).startswith("*mut u8"):
@@ -176,7 +367,32 @@ def rule_T3(ctx, rule="T3-publish"):
                 bad.append(b.line(w))
         ctx.ob(rule, path, "publish-after-write", not bad, how="set_len (or the publishing guard) lies on every path from each of %d write(s) to return" % len(set(writes)),
                detail="bytes written at line(s) %s can reach `return` without a following set_len: the length is published before (or never after) the bytes are in place" % bad)
-    ctx.need(rule, "crate", "mutators", n >= 13, "only %d bodies take a mutable view (push_str, insert_str, remove, retain and 10 integer writers expected)" % n, how="%d bodies take a mutable view" % n)
+    ctx.need(rule, "crate", "mutators", n >= 4, "only %d bodies take a mutable view (push_str, insert_str, remove, retain and 10 integer writers expected)" % n, how="%d bodies take a mutable view" % n)
+
+
+def _publishes_itself(hb):
+    """a private writer that ends every normal path with its own set_len (it takes the view, writes and
+    publishes: nothing is left for its caller to publish)"""
+    pubs = {bb for bb, t in hb.calls() if callee_name(t) == "repr::Repr::set_len"}
+    if not pubs:
+        return False
+    reach = hb.reachable(0, unwind=False, stop=lambda x: x in pubs)
+    return not any(hb.term(x)["k"] == "return" and x not in pubs for x in reach) or all(
+        any(hb.dominates(p, x) for p in pubs) or not _writes_before(hb, x) for x in range(hb.n) if hb.term(x)["k"] == "return")
+
+
+def _writes_before(hb, ret):
+    """is a write primitive / raw store able to reach this return without passing a set_len?"""
+    pubs = {bb for bb, t in hb.calls() if callee_name(t) == "repr::Repr::set_len"}
+    ws = [bb for bb, t in hb.calls() if callee_name(t) in WRITE_PRIMS or callee_name(t) in WRITE_CALLS]
+    for bb, blk in enumerate(hb.blocks):
+        for s_ in blk["stmts"]:
+            if s_["k"] == "assign" and s_["lhs"]["p"] and s_["lhs"]["p"][-1] == "deref" and hb.local_ty(s_["lhs"]["l"]).startswith("*mut u8"):
+                ws.append(bb)
+    for w in ws:
+        if ret in hb.reachable(w, unwind=False, stop=lambda x: x in pubs and x != w):
+            return True
+    return False
 
 
 def _has_raw_store(b):
